@@ -5,6 +5,7 @@
 package impl
 
 import (
+	"math"
 	"math/bits"
 
 	"google.golang.org/protobuf/encoding/protowire"
@@ -73,7 +74,10 @@ var lazyUnmarshalOptions = unmarshalOptions{
 
 	flags: protoiface.UnmarshalAliasBuffer | protoiface.UnmarshalValidated,
 
-	depth: protowire.DefaultRecursionLimit,
+	// The buffer was validated, under the recursion limit of the caller, when
+	// it was first unmarshaled. A smaller limit here would silently drop
+	// content that the original Unmarshal call accepted.
+	depth: math.MaxInt32,
 }
 
 type unmarshalOutput struct {
